@@ -70,7 +70,7 @@ println(g.().inspect)
 
 
 RISKY = ("loop_forlist", "exit_after_capture", "labelled_break", "labelled_continue", "tailcall_self", "tailcall_self_w",
-         "tailcall_other", "tailcall_other_local", "captured_param_written")
+         "tailcall_other", "tailcall_other_local", "captured_param_written", "throw_catch", "exit_from_inner_loop")
 
 
 def key_of(feats, cls, env):
@@ -123,19 +123,23 @@ def run(ctx):
         "exactly the open upvalues inside the current array, one upvalue per slot, for ALL sequences. D is necessary: "
         "C13_reuse_without_close_refuted (new instance in a slot without close: what the unfixed compiler did at the `for in` back edge "
         "and on `continue`), C13_tailcall_without_close_refuted (callBytecodeFunctionTCO as found). NOT PROVED: that the compiler always "
-        "emits code satisfying D (tested by c13.prog only; one known finding: catch handler in the same frame). TIED TO THE GO CODE: "
+        "emits code satisfying D (tested by c13.prog only; one known finding: catch handler in the same frame). Error unwinding "
+        "(Thread.rethrow discarding frames) is the machine operation OUnwind (= restoreLastFrame: closes from the POPPED frame's base); "
+        "C13_unwind_close_from_caller_refuted: closing from the caller's restored frame pointer violates the spec on a D-respecting trace. "
+        "TIED TO THE GO CODE: "
         "stream c13.machine executes seeded operation traces on a real vm.Thread through the hook vm/verif_c13.go and compares reads and "
         "the whole offset view with the extracted Coq machine; c13.spec compares the real Thread's reads with the extracted spec on every "
         "D-respecting trace (C13_refines evaluated on the Go code). c13.prog: generated closure programs on the real binary vs a "
         "store-semantics reference interpreter (Python; same cell discipline as the Coq spec).")
     ctx.trusted_base += ["Python reference interpreter lib/c13lang.py (cells per variable instance) as expected-output oracle of c13.prog",
                          "the discipline D is assumed of compiled code (tested through program behaviour, not checked on bytecode)",
-                         "hook /repo/vm/verif_c13.go (thin wrappers; sets vm.localCount before a tail call as PREP_LOCALS would)"]
+                         "hook /repo/vm/verif_c13.go (thin wrappers; sets vm.localCount before a tail call as PREP_LOCALS would)",
+                         "hook /repo/vm/verif_c13b.go (Unwind: gives the catching frame a catch entry, the frames below none, calls the real Thread.rethrow)"]
     ctx.run_proof_gate()
     c13machine.machine_stream(ctx)
     elk = vlib.build_elk()
     rng = ctx.rng("c13.prog")
-    nprog = ctx.n(70, 3000)
+    nprog = ctx.n(84, 3600)
     items = []   # (name, src, exp, env, feats)
     for name, src, exp in HAND:
         items.append(("hand:" + name, src, exp, {}, ["corpus"]))
@@ -147,7 +151,7 @@ def run(ctx):
     for i in range(nprog):
         seed = rng.next() & 0x7FFFFFFF
         prng = vlib.SplitMix(seed)
-        prof = "c13b" if i % 4 else "c13"
+        prof = ("c13", "c13c", "c13b", "c13c", "c13b", "c13c")[i % 6]
         p = c13lang.gen_program(prng, prof)
         exp, depth = c13lang.interp(p)
         if exp is None or len(exp) > 40000:
@@ -193,7 +197,12 @@ def run(ctx):
                "do-while/do-until/loop/fornum/for-in-range/for-in-list, with break/continue before and after the capture, labelled "
                "break/continue to an outer loop, nested closures, counters shared by several closures, closures returned from methods "
                "and called after the frame returned, captures followed by a tail-position self/other call, recursive closures with "
-               "captured locals, closures passed through deep method recursion; half of the runs with a small initial value stack; "
+               "captured locals, closures passed through deep method recursion; (profile c13c, half of the programs) do/catch around "
+               "calls whose error is thrown 1-7 call frames below (thr1/thr2/thr3/thrd) in frames - top level, methods, closures, "
+               "loop bodies - holding captured locals that frame and closures write and read alternately after the catch, and "
+               "continue[l]/break[l] issued from an INNER loop after closures captured locals of if/else/do block scopes between "
+               "the two loops (no closure after the labelled exit: the known-finding class); "
+               "half of the runs with a small initial value stack; "
                "stdout vs reference interpreter (cells). non-trivial = a captured variable is written inside a closure or a witness; "
                "%d hand-written/corpus cases first (corpus/C13.prog.txt, corpus/C13.src/)" % ncorpus,
                samples, featcount, mismatches=fails, skipped_too_big=skipped, corpus_cases=ncorpus)
